@@ -15,7 +15,7 @@
     Two non-terminals with the same name are the same non-terminal for the Rust code.  The model
     may create a helper whose name is already in the table (this is exactly the situation in
     which the Rust code merges a helper with an existing name - see [canon_fresh_refuted] in
-    CanonProofs); the named output is still identical to the Rust output.
+    CanonProofs, about the pinned-commit behaviour [canon_old]); the named output is still identical to the Rust output.
 
     Loops.  Every Rust [while] loop is a recursion on [fuel]; each loop gets the full [fuel]
     (every loop makes at most [canon_fuel] iterations, see CanonProofs.[canon_terminates]).
@@ -55,15 +55,41 @@ Fixpoint names_of (names : list string) (l : list N) : res (list string) :=
   | a :: r => bind (name_of names a) (fun s => bind (names_of names r) (fun ss => Ok (s :: ss)))
   end.
 
-(** [variable_names]: left-hand sides and the non-terminals at the *top level* of every
-    alternative (not those nested inside groups, repetitions or optionals), in document order.
-    The Rust code sorts and dedups the list; it is only used for membership tests. *)
+(** [variable_names] - the exclusion list handed to [generate_name].  The Rust code sorts and
+    dedups the list; it is only used for membership tests, so the model keeps document order.
+
+    Two versions:
+    - [var_ids_old] (pinned commit): left-hand sides and the non-terminals at the *top level* of
+      every alternative only; non-terminals nested inside groups, repetitions or optionals were
+      invisible, so a helper could be given the name of such a non-terminal
+      (CanonProofs.[canon_fresh_refuted]);
+    - [var_ids] (repaired code, [collect_factor_vars]): left-hand side, then all non-terminals of
+      the right-hand side at any nesting depth, depth first in document order.
+    Every definition below takes [deep : bool]: [true] = repaired code, [false] = pinned commit. *)
 Definition top_nts (alt : list factor) : list N :=
   flat_map (fun f => match f with FN x => [x] | _ => [] end) alt.
-Definition var_ids (ps : list eprod) : list N :=
+Definition var_ids_old (ps : list eprod) : list N :=
   flat_map (fun p => fst p :: flat_map top_nts (snd p)) ps.
-Definition variable_names (st : cstate) : res (list string) :=
-  names_of (st_names st) (var_ids (st_ps st)).
+
+Fixpoint fnts (f : factor) : list N :=
+  match f with
+  | FT _ => []
+  | FN a => [a]
+  | FGroup b => flat_map (flat_map fnts) b
+  | FOpt b => flat_map (flat_map fnts) b
+  | FRep b => flat_map (flat_map fnts) b
+  end.
+Definition seq_nts (a : list factor) : list N := flat_map fnts a.
+Definition alts_nts (b : alts) : list N := flat_map (flat_map fnts) b.
+Definition var_ids (ps : list eprod) : list N :=
+  flat_map (fun p => fst p :: alts_nts (snd p)) ps.
+
+Definition var_ids_gen (deep : bool) (ps : list eprod) : list N :=
+  if deep then var_ids ps else var_ids_old ps.
+Definition variable_names_gen (deep : bool) (st : cstate) : res (list string) :=
+  names_of (st_names st) (var_ids_gen deep (st_ps st)).
+Definition variable_names : cstate -> res (list string) := variable_names_gen true.
+Definition variable_names_old : cstate -> res (list string) := variable_names_gen false.
 
 Definition next_nt (st : cstate) : N := N.of_nat (length (st_names st)).
 
@@ -153,12 +179,12 @@ Definition ends_opt_num (s : string) : bool :=
   end.
 
 (** One iteration of the loop of [extract_options]; [None] = no optional left. *)
-Definition extract_step (st : cstate) : res (option cstate) :=
+Definition extract_step (deep : bool) (st : cstate) : res (option cstate) :=
   let X := next_nt st in
   match ex_prods X (st_ps st) with
   | None => Ok None
   | Some (pre, a, b', o, post) =>
-      bind (variable_names st) (fun excl =>
+      bind (variable_names_gen deep st) (fun excl =>
       bind (name_of (st_names st) a) (fun nt =>
       let preferred := if ends_opt_num nt then nt else (nt ++ "Opt")%string in
       let name := generate_name excl preferred in
@@ -166,11 +192,11 @@ Definition extract_step (st : cstate) : res (option cstate) :=
                      (st_names st ++ [name])))))
   end.
 
-Fixpoint extract_loop (fuel : nat) (st : cstate) : res cstate :=
-  bind (extract_step st) (fun r =>
+Fixpoint extract_loop (deep : bool) (fuel : nat) (st : cstate) : res cstate :=
+  bind (extract_step deep st) (fun r =>
     match r with
     | None => Ok st
-    | Some st' => match fuel with 0 => Err OutOfFuel | S k => extract_loop k st' end
+    | Some st' => match fuel with 0 => Err OutOfFuel | S k => extract_loop deep k st' end
     end).
 
 (** ** [separate_alternatives] *)
@@ -204,11 +230,11 @@ Definition rep_news (is_lr : bool) (X : N) (rb : alts) : list eprod :=
   | _ => [(X, [if is_lr then [FN X; FGroup rb] else [FGroup rb; FN X]]); (X, [[]])]
   end.
 
-Definition rep_step (is_lr : bool) (st : cstate) : res (option cstate) :=
+Definition rep_step (deep : bool) (is_lr : bool) (st : cstate) : res (option cstate) :=
   match find_prods is_rep (st_ps st) with
   | None => Ok None
   | Some l =>
-      bind (variable_names st) (fun excl =>
+      bind (variable_names_gen deep st) (fun excl =>
       bind (name_of (st_names st) (l_lhs l)) (fun nt =>
       let name := generate_name excl (nt ++ "List")%string in
       let X := next_nt st in
@@ -216,11 +242,11 @@ Definition rep_step (is_lr : bool) (st : cstate) : res (option cstate) :=
                      (st_names st ++ [name])))))
   end.
 
-Fixpoint rep_loop (fuel : nat) (is_lr : bool) (st : cstate) (m : bool) : res (cstate * bool) :=
-  bind (rep_step is_lr st) (fun r =>
+Fixpoint rep_loop (deep : bool) (fuel : nat) (is_lr : bool) (st : cstate) (m : bool) : res (cstate * bool) :=
+  bind (rep_step deep is_lr st) (fun r =>
     match r with
     | None => Ok (st, m)
-    | Some st' => match fuel with 0 => Err OutOfFuel | S k => rep_loop k is_lr st' true end
+    | Some st' => match fuel with 0 => Err OutOfFuel | S k => rep_loop deep k is_lr st' true end
     end).
 
 (** ** [eliminate_options]
@@ -233,7 +259,7 @@ Fixpoint remove_nth {A} (n : nat) (l : list A) : option (list A) :=
   | _, [] => None
   end.
 
-Definition opt_step (st : cstate) : res (option cstate) :=
+Definition opt_step (deep : bool) (st : cstate) : res (option cstate) :=
   match find_prods is_opt (st_ps st) with
   | None => Ok None
   | Some l =>
@@ -244,7 +270,7 @@ Definition opt_step (st : cstate) : res (option cstate) :=
           let p1a := (a, l_b1 l ++ (l_s1 l ++ l_s2 l) :: l_b2 l) in
           Ok (Some (mkSt (l_pre l ++ p1 :: p1a :: l_post l) (st_names st)))
       | ob =>
-          bind (variable_names st) (fun excl =>
+          bind (variable_names_gen deep st) (fun excl =>
           bind (name_of (st_names st) a) (fun nt =>
           let name := generate_name excl (nt ++ "Opt")%string in
           let X := next_nt st in
@@ -263,22 +289,22 @@ Definition opt_step (st : cstate) : res (option cstate) :=
       end
   end.
 
-Fixpoint opt_loop (fuel : nat) (st : cstate) (m : bool) : res (cstate * bool) :=
-  bind (opt_step st) (fun r =>
+Fixpoint opt_loop (deep : bool) (fuel : nat) (st : cstate) (m : bool) : res (cstate * bool) :=
+  bind (opt_step deep st) (fun r =>
     match r with
     | None => Ok (st, m)
-    | Some st' => match fuel with 0 => Err OutOfFuel | S k => opt_loop k st' true end
+    | Some st' => match fuel with 0 => Err OutOfFuel | S k => opt_loop deep k st' true end
     end).
 
 (** ** [eliminate_groups] *)
-Definition grp_step (st : cstate) : res (option cstate) :=
+Definition grp_step (deep : bool) (st : cstate) : res (option cstate) :=
   match find_prods is_grp (st_ps st) with
   | None => Ok None
   | Some l =>
       match fbody (l_f l) with
       | [alt] => Ok (Some (mkSt (unloc l alt []) (st_names st)))
       | gb =>
-          bind (variable_names st) (fun excl =>
+          bind (variable_names_gen deep st) (fun excl =>
           bind (name_of (st_names st) (l_lhs l)) (fun nt =>
           let name := generate_name excl (nt ++ "Group")%string in
           let X := next_nt st in
@@ -286,28 +312,28 @@ Definition grp_step (st : cstate) : res (option cstate) :=
       end
   end.
 
-Fixpoint grp_loop (fuel : nat) (st : cstate) (m : bool) : res (cstate * bool) :=
-  bind (grp_step st) (fun r =>
+Fixpoint grp_loop (deep : bool) (fuel : nat) (st : cstate) (m : bool) : res (cstate * bool) :=
+  bind (grp_step deep st) (fun r =>
     match r with
     | None => Ok (st, m)
-    | Some st' => match fuel with 0 => Err OutOfFuel | S k => grp_loop k st' true end
+    | Some st' => match fuel with 0 => Err OutOfFuel | S k => grp_loop deep k st' true end
     end).
 
 (** ** The driver *)
 
 (** [trans_fn] = separate_alternatives; eliminate_repetitions; eliminate_options;
     eliminate_groups, threading the [modified] flag (initially [false]). *)
-Definition trans_fn (fuel : nat) (is_lr : bool) (st : cstate) : res (cstate * bool) :=
+Definition trans_fn (deep : bool) (fuel : nat) (is_lr : bool) (st : cstate) : res (cstate * bool) :=
   bind (sep_loop fuel (st_ps st) false) (fun '(ps1, m1) =>
-  bind (rep_loop fuel is_lr (mkSt ps1 (st_names st)) m1) (fun '(st2, m2) =>
-  bind (opt_loop fuel st2 m2) (fun '(st3, m3) =>
-  grp_loop fuel st3 m3))).
+  bind (rep_loop deep fuel is_lr (mkSt ps1 (st_names st)) m1) (fun '(st2, m2) =>
+  bind (opt_loop deep fuel st2 m2) (fun '(st3, m3) =>
+  grp_loop deep fuel st3 m3))).
 
-Fixpoint main_loop (fuel : nat) (n : nat) (is_lr : bool) (st : cstate) : res cstate :=
+Fixpoint main_loop (deep : bool) (fuel : nat) (n : nat) (is_lr : bool) (st : cstate) : res cstate :=
   match n with
   | 0 => Err OutOfFuel
-  | S k => bind (trans_fn fuel is_lr st) (fun '(st', m) =>
-             if m then main_loop fuel k is_lr st' else Ok st')
+  | S k => bind (trans_fn deep fuel is_lr st) (fun '(st', m) =>
+             if m then main_loop deep fuel k is_lr st' else Ok st')
   end.
 
 (** [finalize]: exactly one alternative per production, all factors atomic. *)
@@ -324,14 +350,21 @@ Fixpoint finalize (ps : list eprod) : res (list prod) :=
       end
   end.
 
-(** [canon fuel is_lr G names]: the productions of the grammar configuration and the extended
-    name table.  [is_lr = true] for [%grammar_type 'LALR(1)']. *)
-Definition canon (fuel : nat) (is_lr : bool) (G : egrammar) (names : list string)
+(** [canon_gen deep fuel is_lr G names]: the productions of the grammar configuration and the
+    extended name table.  [is_lr = true] for [%grammar_type 'LALR(1)']. *)
+Definition canon_gen (deep : bool) (fuel : nat) (is_lr : bool) (G : egrammar) (names : list string)
   : res (cfg * list string) :=
-  bind (extract_loop fuel (mkSt (eprods G) names)) (fun st1 =>
-  bind (main_loop fuel (S fuel) is_lr st1) (fun st2 =>
+  bind (extract_loop deep fuel (mkSt (eprods G) names)) (fun st1 =>
+  bind (main_loop deep fuel (S fuel) is_lr st1) (fun st2 =>
   bind (finalize (st_ps st2)) (fun l =>
   Ok (mkCfg (estart G) l, st_names st2)))).
+
+(** The repaired code ... *)
+Definition canon : nat -> bool -> egrammar -> list string -> res (cfg * list string) :=
+  canon_gen true.
+(** ... and the code at the pinned commit. *)
+Definition canon_old : nat -> bool -> egrammar -> list string -> res (cfg * list string) :=
+  canon_gen false.
 
 (** A sufficient amount of fuel: weight of the group/repeat/optional nodes plus the surplus
     alternatives at every nesting level (CanonProofs.[canon_terminates]). *)
@@ -369,9 +402,13 @@ Fixpoint named_prods (names : list string) (l : list prod) : res (list (string *
               bind (named_rhs names (rhs p)) (fun rr =>
               bind (named_prods names r) (fun l' => Ok ((s, rr) :: l'))))
   end.
-Definition canon_named (fuel : nat) (is_lr : bool) (G : egrammar) (names : list string)
-  : res (list (string * list nsym)) :=
-  bind (canon fuel is_lr G names) (fun '(B, names') => named_prods names' (prods B)).
+Definition canon_named_gen (deep : bool) (fuel : nat) (is_lr : bool) (G : egrammar)
+  (names : list string) : res (list (string * list nsym)) :=
+  bind (canon_gen deep fuel is_lr G names) (fun '(B, names') => named_prods names' (prods B)).
+Definition canon_named : nat -> bool -> egrammar -> list string -> res (list (string * list nsym)) :=
+  canon_named_gen true.
+Definition canon_named_old : nat -> bool -> egrammar -> list string -> res (list (string * list nsym)) :=
+  canon_named_gen false.
 
 (** ** Examples *)
 Local Open Scope string_scope.
